@@ -46,14 +46,17 @@ def remember (lib : Lib) (m : Mol) : Lib := { lib with name := some (atomsOf m) 
 def getDescriptors (S : SchemeDef) (lib : Lib) (m : Mol) : Lib × Except Scheme.Err Counts :=
   (remember lib m, decompose S m)
 
-/-- `lib.Estimate(lib.GetDescriptors(m), set)` -/
-def pipeline (reg : List String) (S : SchemeDef) (lib : Lib) (m : Mol) (set : String) : Except Err Estimator :=
-  match getDescriptors S lib m with
+/-- `lib.Estimate(d, set)` for the outcome `d` of `lib.GetDescriptors(m)` (a raised `PatternMatchError` propagates) -/
+def estimateOf (reg : List String) (set : String) : Lib × Except Scheme.Err Counts → Except Err Estimator
   | (_, .error .patternMatch) => .error .patternMatch
   | (lib', .ok counts) =>
     match estimate reg lib' counts set with
     | .error e => .error (.estimate e)
     | .ok est => .ok est
+
+/-- `lib.Estimate(lib.GetDescriptors(m), set)` -/
+def pipeline (reg : List String) (S : SchemeDef) (lib : Lib) (m : Mol) (set : String) : Except Err Estimator :=
+  estimateOf reg set (getDescriptors S lib m)
 
 /-- the estimate as a `ThermochemBase` object: the three non-dimensional getters and everything derived from them -/
 def pipelineND (sel : Nat → Option Rat) (reg : List String) (S : SchemeDef) (lib : Lib) (m : Mol) (set : String) :
